@@ -116,8 +116,7 @@ def trace_float_grid(repo, max_tick=20000):
                 if d == t:
                     continue
                 if d is None:
-                    # due in the last replayed tick but pushed one tick further by the rounding of a / (1/tps): the recorded finding
-                    k = "late-by-rounding" if (want == horizon - 1 and (a / (1.0 / tps)) > want) else "not-delivered"
+                    k = "not-delivered"
                 elif d < t:
                     k = "early"
                 elif d == t + 1 and (arr[i] / (1.0 / tps)) > t:
@@ -149,6 +148,13 @@ def trace_replay_random(repo, seed=0, n=300):
             step = rng.choice([0, 0, 1 / tps, 0.5 / tps, rng.random() * 3 / tps, rng.randint(1, 5) / tps, 0.1, 0.29])
             t = t + step
             arrs.append(t)
+            if rng.random() < 0.25:
+                # two different arrivals less than a microsecond apart on opposite sides of a tick boundary
+                k = int(t * tps) + 1
+                lo, hi = k / tps - rng.choice([4e-7, 1e-7, 3e-8]), k / tps + rng.choice([4e-7, 1e-7, 3e-8])
+                if lo > t:
+                    arrs.extend([lo, hi])
+                    t = hi
         rows = "".join(f"p{i},{a!r},QUERY,op1,,1,const,,1\n" for i, a in enumerate(arrs))
         w = CSVWorkloadReader(io.StringIO(hdr + rows)).get_workload(tps)
         horizon = int(arrs[-1] * tps) + 3 - rng.choice([0, 0, 2])
@@ -329,7 +335,7 @@ def sensitivity_seed(repo):
     out = {}
     with tempfile.TemporaryDirectory() as d:
         pf = os.path.join(d, "p.toml")
-        open(pf, "w").write("duration = 30\nticks_per_second = 10\nwaiting_seconds_mean = 2.0\n")
+        open(pf, "w").write("duration = 30\nticks_per_second = 10\nwaiting_seconds_mean = 2.0\nrandom_seed = 3\n")
         so, se = sys.stdout, sys.stderr
         try:
             for i, seed in enumerate((7, 8)):
@@ -371,7 +377,7 @@ def sensitivity_seed(repo):
     try:
         with tempfile.TemporaryDirectory() as d2:
             pf2 = os.path.join(d2, "p.toml")
-            open(pf2, "w").write("duration = 30\nticks_per_second = 10\nwaiting_seconds_mean = 2.0\n")
+            open(pf2, "w").write("duration = 30\nticks_per_second = 10\nwaiting_seconds_mean = 2.0\nrandom_seed = 3\n")
             so, se = sys.stdout, sys.stderr
             try:
                 with contextlib.redirect_stdout(io.StringIO()):
@@ -726,6 +732,76 @@ def csv_roundtrip(repo, seed=0, n=150):
 
 
 CHILDREN.update({"csv_roundtrip": csv_roundtrip})
+
+
+# ------------------------------------------------------------------------------------------------
+def gentrace_roundtrip(repo, seed=0, n=40):
+    """C13 bounded: a workload pushed through the real WorkloadTraceGenerator, the real writer and the real reader must
+    replay every pipeline in the tick in which it was generated.  A pipeline that comes back one tick late although the file
+    holds exactly tick * (1/tps) and (a / (1/tps)) rounds above the tick is the recorded finding D4; anything else is new."""
+    import io, random
+    sys.path.insert(0, repo)
+    logging.disable(logging.CRITICAL)
+    from eudoxia.workload.csv_io import CSVWorkloadReader, CSVWorkloadWriter, WorkloadTraceGenerator
+    from eudoxia.workload.pipeline import Pipeline, Segment
+    from eudoxia.utils import Priority
+    rng = random.Random(seed)
+    kinds, first, total = {}, {}, 0
+
+    class W:
+        def __init__(self, ticks):
+            self.ticks, self.t, self.n = set(ticks), -1, 0
+        def run_one_tick(self):
+            self.t += 1
+            if self.t not in self.ticks:
+                return []
+            p = Pipeline(f"g{self.t}", Priority.QUERY)
+            p.new_operator().add_segment(Segment(baseline_cpu_seconds=1, cpu_scaling="const", storage_read_gb=1))
+            return [p]
+
+    for case in range(n):
+        tps = rng.choice([1, 2, 3, 7, 10, 60, 100, 128, 1000, 4096, 100000])
+        horizon = rng.choice([40, 400, 3000])
+        ticks = sorted(set(rng.randint(0, horizon - 1) for _ in range(rng.randint(5, 60))) | {horizon - 1})
+        gen = WorkloadTraceGenerator(workload=W(ticks), ticks_per_second=tps, duration_secs=horizon / tps + 0.5 / tps)
+        buf = io.StringIO()
+        w = CSVWorkloadWriter(buf)
+        rows = list(gen.generate_rows())
+        for r in rows:
+            w.write_row(r)
+        if len(rows) != len(ticks):
+            kinds["generator-lost-pipelines"] = kinds.get("generator-lost-pipelines", 0) + 1
+            first.setdefault("generator-lost-pipelines", {"ticks_per_second": tps, "wanted": len(ticks), "rows": len(rows)})
+            continue
+        trace = CSVWorkloadReader(io.StringIO(buf.getvalue())).get_workload(tps)
+        got = []
+        for tick in range(horizon + 2):
+            for p in trace.run_one_tick():
+                got.append(tick)
+        if len(got) != len(ticks):
+            k = "not-delivered-or-duplicated"
+            # the recorded finding can push the last arrivals past the replayed horizon
+            kinds[k] = kinds.get(k, 0) + 1
+            first.setdefault(k, {"ticks_per_second": tps, "generated": len(ticks), "delivered": len(got)})
+            continue
+        for t, d, r in zip(ticks, got, rows):
+            total += 1
+            if d == t:
+                continue
+            a = r.arrival_seconds
+            if d == t + 1 and a == t * (1.0 / tps) and (a / (1.0 / tps)) > t:
+                k = "late-by-rounding"
+            else:
+                k = "replayed-in-another-tick"
+            kinds[k] = kinds.get(k, 0) + 1
+            first.setdefault(k, {"generated_in_tick": t, "delivered_tick": d, "ticks_per_second": tps, "arrival_in_file": a})
+    ok = not kinds
+    return {"name": "bounded:gentrace-roundtrip", "ok": ok, "bounded": f"{n} generated traces, 11 tick rates incl. ones that do not divide 10^6",
+            "cases": total, "kinds": kinds, "finding_kinds": sorted(kinds), "witness": first,
+            "detail": "every pipeline replayed in the tick that generated it" if ok else f"deviations: {kinds}"}
+
+
+CHILDREN.update({"gentrace_roundtrip": gentrace_roundtrip})
 
 
 # ------------------------------------------------------------------------------------------------
